@@ -37,19 +37,66 @@ type nodeStore struct {
 	getCalls int
 	altered  int    // reads served altered
 	swapA    uint64 // reads of swapA and swapA+1 are exchanged (0 = none)
+
+	// error faults: the k-th matching call from now fails with errInjected before
+	// reaching the inner store (0 = none armed); fired* count the faults that fired
+	failStoreIn, failDeleteIn  int
+	failVReadIn, failVFirstIn  int // GetLog / FirstIndex issued by the verifier goroutine
+	failDriverIn               int // FirstIndex / LastIndex / GetLog issued by the driver (transparency probes)
+	firedStore, firedDelete    int
+	firedVRead, firedDriver    int
+}
+
+// errInjected is what an injected inner-store (or IsCheckpointFn) fault returns.
+var errInjected = errors.New("injected inner-store error")
+
+// tick counts an armed fault down; true = this call is the failing one.
+func tick(p *int) bool {
+	if *p == 0 {
+		return false
+	}
+	*p--
+	return *p == 0
+}
+
+func (s *nodeStore) byVerifier() bool {
+	t := s.sim.Current()
+	return t != nil && t.Name == "verifier"
 }
 
 func (s *nodeStore) FirstIndex() (uint64, error) {
 	s.sim.MaybeYield("inner:FirstIndex")
+	if s.byVerifier() {
+		if tick(&s.failVFirstIn) {
+			s.firedVRead++
+			return 0, errInjected
+		}
+	} else if tick(&s.failDriverIn) {
+		s.firedDriver++
+		return 0, errInjected
+	}
 	return s.inner.FirstIndex()
 }
 func (s *nodeStore) LastIndex() (uint64, error) {
 	s.sim.MaybeYield("inner:LastIndex")
+	if !s.byVerifier() && tick(&s.failDriverIn) {
+		s.firedDriver++
+		return 0, errInjected
+	}
 	return s.inner.LastIndex()
 }
 func (s *nodeStore) GetLog(i uint64, l *raft.Log) error {
 	s.sim.MaybeYield("inner:GetLog")
 	s.getCalls++
+	if s.byVerifier() {
+		if tick(&s.failVReadIn) {
+			s.firedVRead++
+			return errInjected
+		}
+	} else if tick(&s.failDriverIn) {
+		s.firedDriver++
+		return errInjected
+	}
 	if s.swapA != 0 && (i == s.swapA || i == s.swapA+1) {
 		// at-rest corruption: two neighbouring entries come back in each other's place
 		j := s.swapA
@@ -74,10 +121,18 @@ func (s *nodeStore) GetLog(i uint64, l *raft.Log) error {
 func (s *nodeStore) StoreLog(l *raft.Log) error { return s.StoreLogs([]*raft.Log{l}) }
 func (s *nodeStore) StoreLogs(ls []*raft.Log) error {
 	s.sim.MaybeYield("inner:StoreLogs")
+	if tick(&s.failStoreIn) {
+		s.firedStore++
+		return errInjected
+	}
 	return s.inner.StoreLogs(ls)
 }
 func (s *nodeStore) DeleteRange(a, b uint64) error {
 	s.sim.MaybeYield("inner:DeleteRange")
+	if tick(&s.failDeleteIn) {
+		s.firedDelete++
+		return errInjected
+	}
 	return s.inner.DeleteRange(a, b)
 }
 
@@ -108,6 +163,8 @@ type cnode struct {
 	mismatches        int // reports of the current instance that carried ErrChecksumMismatch
 	alteredSeen       int
 	snapIdx, snapTerm uint64 // last entry removed by this node's own head truncation ("snapshot")
+	cpFailIn, cpFired int    // IsCheckpointFn error fault (k-th call from now), faults fired
+	vfailSeen         int    // verifier read faults already attributed to a report
 }
 
 type cluster struct {
@@ -133,7 +190,25 @@ type cluster struct {
 	mutDetected bool
 	mutExpected int // reports that had to flag the mutation
 	nextData    uint64
+
+	errRun  bool // this run injects inner-store / IsCheckpointFn errors
+	aborted bool // an oracle of another property failed: the run ends without a verdict
 }
+
+// oracleOwner: which property's statement an oracle encodes. A run of another
+// property ignores its failure (and stops, because driver and stores may be out
+// of step) instead of reporting it under the wrong property.
+func oracleOwner(oracle string) string {
+	switch oracle {
+	case "no-false-alarm":
+		return "C16"
+	case "detects-divergence", "blame-correct":
+		return "C17"
+	}
+	return "C18" // transparent, drop-accounting, report-wellformed, no-panic, appends-never-block
+}
+
+func (c *cluster) stopped() bool { return c.viol != nil || c.aborted }
 
 func (c *cluster) logf(f string, a ...interface{}) {
 	if len(c.log) < 400 {
@@ -142,7 +217,15 @@ func (c *cluster) logf(f string, a ...interface{}) {
 }
 
 func (c *cluster) violate(oracle, class, format string, args ...interface{}) {
-	if c.viol == nil {
+	if oracleOwner(oracle) != c.mode {
+		if !c.aborted {
+			c.probes.Add("ignored_"+oracle, 1)
+			c.logf("ignored (%s's oracle %s/%s): %s", oracleOwner(oracle), oracle, class, fmt.Sprintf(format, args...))
+		}
+		c.aborted = true
+		return
+	}
+	if c.viol == nil && !c.aborted {
 		c.viol = &Violation{Property: c.prop, Oracle: oracle, Class: class, Message: fmt.Sprintf(format, args...)}
 		c.logf("VIOLATION %s", c.viol.Error())
 	}
@@ -176,7 +259,15 @@ func (c *cluster) newVerifier(n *cnode) {
 	if cur != nil {
 		cur.Ctx = fmt.Sprintf("n%d.%d", n.id, n.gen)
 	}
-	n.ls = verifier.NewLogStore(n.wrap, isCP, func(r verifier.VerificationReport) {
+	n.vfailSeen = n.wrap.firedVRead
+	cpFn := func(l *raft.Log) (bool, error) {
+		if tick(&node.cpFailIn) {
+			node.cpFired++
+			return false, errInjected
+		}
+		return isCP(l)
+	}
+	n.ls = verifier.NewLogStore(n.wrap, cpFn, func(r verifier.VerificationReport) {
 		c.onReport(node, gen, r)
 	}, n.mc)
 	// one spawn per yield so that the adopted goroutine is attributed correctly
@@ -300,6 +391,20 @@ func (c *cluster) onReport(n *cnode, gen int, r verifier.VerificationReport) {
 	// verifier had read the range)
 	restHit := c.mutated && c.mutKind == "rest" && c.mutNode == n.id && c.mutIdx >= cp.start && c.mutIdx < cp.end && n.wrap.altered > n.alteredSeen
 	n.alteredSeen = n.wrap.altered
+	if n.wrap.firedVRead > n.vfailSeen {
+		// a read of the inner store failed during this verification: the range was
+		// not verified; the report must say so with the store's error, and must not
+		// call it a checksum mismatch
+		n.vfailSeen = n.wrap.firedVRead
+		c.probes.Add("reports_after_read_error", 1)
+		switch {
+		case isMismatch && has && equal:
+			c.violate("no-false-alarm", "false-alarm:read-error", "node %d stores %s as checksummed; a read of its store failed during the verification and the report says: %v", n.id, r.Range, r.Err)
+		case !isMismatch && !errors.Is(r.Err, errInjected):
+			c.violate("transparent", "verifier-read-error-lost", "node %d: a read of the inner store failed while verifying %s but the report carries %v", n.id, r.Range, r.Err)
+		}
+		return
+	}
 	switch {
 	case !has:
 		c.probes.Add("reports_range_not_held", 1)
@@ -401,8 +506,18 @@ func (c *cluster) waitQuiet(n *cnode) {
 
 // storeVia appends a batch through node n's verifying store.
 func (c *cluster) storeVia(n *cnode, batch []*raft.Log) error {
+	err, _ := c.storeViaF(n, batch)
+	return err
+}
+
+// storeViaF also tells whether an injected fault (inner StoreLogs or
+// IsCheckpointFn) fired inside the call; the error must then be the injected
+// one and nothing may have been stored or accounted.
+func (c *cluster) storeViaF(n *cnode, batch []*raft.Log) (error, bool) {
 	c.useNode(n)
 	before := int(n.mc.Summary().Counters["dropped_reports"])
+	firedBefore := n.wrap.firedStore + n.cpFired
+	lastBefore, cpwBefore := n.mem.last, n.mc.Summary().Counters["checkpoints_written"]
 	var err error
 	func() {
 		defer func() {
@@ -413,6 +528,23 @@ func (c *cluster) storeVia(n *cnode, batch []*raft.Log) error {
 		}()
 		err = n.ls.StoreLogs(batch)
 	}()
+	if n.wrap.firedStore+n.cpFired > firedBefore {
+		c.fired.Add("inner_error_StoreLogs_or_checkpointFn", 1)
+		switch {
+		case err == nil:
+			c.violate("transparent", "inner-error-swallowed", "node %d: the inner store (or IsCheckpointFn) failed inside StoreLogs but the middleware returned nil", n.id)
+		case !errors.Is(err, errInjected):
+			c.violate("transparent", "inner-error-replaced", "node %d: StoreLogs returned %v, the inner failure was %v", n.id, err, errInjected)
+		case n.mem.last != lastBefore:
+			c.violate("transparent", "stored-despite-error", "node %d: StoreLogs failed but the store grew %d -> %d", n.id, lastBefore, n.mem.last)
+		case n.mc.Summary().Counters["checkpoints_written"] != cpwBefore || int(n.mc.Summary().Counters["dropped_reports"]) != before:
+			c.violate("drop-accounting", "failed-append-accounted", "node %d: a failed StoreLogs changed checkpoints_written / dropped_reports", n.id)
+		}
+		if err == nil {
+			err = errInjected
+		}
+		return err, true
+	}
 	if err == nil {
 		var cpsInBatch []*raft.Log
 		for _, l := range batch {
@@ -434,7 +566,7 @@ func (c *cluster) storeVia(n *cnode, batch []*raft.Log) error {
 			}
 		}
 	}
-	return err
+	return err, false
 }
 
 // leaderAppend: the leader appends k new entries (checkpoints at tape-chosen places).
@@ -458,9 +590,37 @@ func (c *cluster) leaderAppend(forceCP bool) {
 		return
 	}
 	startBefore := c.last(L) + 1
-	if err := c.storeVia(L, batch); err != nil {
-		c.violate("transparent", "leader-append-failed", "leader %d StoreLogs failed: %v", L.id, err)
-		return
+	for attempt := 0; ; attempt++ {
+		err, injected := c.storeViaF(L, batch)
+		if err == nil {
+			break
+		}
+		if !injected {
+			c.violate("transparent", "leader-append-failed", "leader %d StoreLogs failed: %v", L.id, err)
+			return
+		}
+		if c.stopped() {
+			return
+		}
+		// a failed append: retry the very same log values (a checkpoint among them
+		// already carries the metadata the first attempt wrote into it), retry
+		// fresh copies without that metadata, or give the batch up
+		how := c.tp.Choose(3)
+		c.logf("leader n%d append [%d..%d] failed (injected), policy %d", L.id, batch[0].Index, batch[len(batch)-1].Index, how)
+		if how == 2 || attempt >= 2 {
+			c.probes.Add("failed_append_abandoned", 1)
+			return
+		}
+		if how == 1 {
+			for i, l := range batch {
+				cl := cloneLog(l)
+				if ok, _ := isCP(cl); ok {
+					cl.Extensions = nil
+				}
+				batch[i] = cl
+			}
+		}
+		c.probes.Add("failed_append_retried", 1)
 	}
 	// record checkpoints: range start comes from the metadata the leader wrote
 	for _, l := range batch {
@@ -532,7 +692,9 @@ func (c *cluster) replicate(f *cnode) {
 			c.waitQuiet(f)
 			c.useNode(f)
 			c.disarmRest(f, 0, ^uint64(0))
-			f.ls.DeleteRange(f.mem.first, f.mem.last)
+			if !c.deleteVia(f, f.mem.first, f.mem.last) {
+				return
+			}
 		}
 		next = L.mem.first
 	}
@@ -540,8 +702,7 @@ func (c *cluster) replicate(f *cnode) {
 		// conflicting suffix: truncate it first (never while a verification of it may run)
 		c.waitQuiet(f)
 		c.useNode(f)
-		if err := f.ls.DeleteRange(next, f.mem.last); err != nil {
-			c.violate("transparent", "delete-failed", "DeleteRange: %v", err)
+		if !c.deleteVia(f, next, f.mem.last) {
 			return
 		}
 		c.disarmRest(f, next, ^uint64(0))
@@ -561,12 +722,14 @@ func (c *cluster) replicate(f *cnode) {
 	}
 	n := 1 + c.tp.Choose(5)
 	var batch []*raft.Log
+	mutatedHere := false
 	for i := next; i <= L.mem.last && len(batch) < n; i++ {
 		e := cloneLog(L.mem.m[i])
 		// in-flight mutation (C17): the copy handed to this follower differs
 		if c.mode == "C17" && !c.mutated && c.tp.Choose(12) == 0 && !(e.Index == 1 && e.Type == raft.LogConfiguration) {
 			if ok, _ := isCP(e); !ok {
 				c.mutated, c.mutKind, c.mutNode, c.mutIdx = true, "flight", f.id, e.Index
+				mutatedHere = true
 				c.mutField = c.chooseMutation(false).apply(e)
 				c.fired.Add("mutation_in_flight_"+c.mutField, 1)
 				c.logf("MUTATION in flight: entry %d to n%d field %s", e.Index, f.id, c.mutField)
@@ -574,11 +737,47 @@ func (c *cluster) replicate(f *cnode) {
 		}
 		batch = append(batch, e)
 	}
-	if err := c.storeVia(f, batch); err != nil {
+	if err, injected := c.storeViaF(f, batch); err != nil {
+		if injected {
+			// nothing was stored; the altered copy (if any) never reached the node
+			if mutatedHere {
+				c.mutated = false
+			}
+			c.probes.Add("failed_replication", 1)
+			c.logf("replication [%d..%d] to n%d failed (injected)", batch[0].Index, batch[len(batch)-1].Index, f.id)
+			return
+		}
 		c.violate("transparent", "follower-append-failed", "follower %d StoreLogs failed: %v", f.id, err)
 		return
 	}
 	c.logf("replicated [%d..%d] to n%d", batch[0].Index, batch[len(batch)-1].Index, f.id)
+}
+
+// deleteVia calls DeleteRange through node n's verifying store; false = it did
+// not happen (an injected failure, which must surface unchanged and leave the
+// store alone, or a violation).
+func (c *cluster) deleteVia(n *cnode, lo, hi uint64) bool {
+	firedBefore := n.wrap.firedDelete
+	f0, l0 := n.mem.first, n.mem.last
+	err := n.ls.DeleteRange(lo, hi)
+	if n.wrap.firedDelete > firedBefore {
+		c.fired.Add("inner_error_DeleteRange", 1)
+		switch {
+		case err == nil:
+			c.violate("transparent", "inner-error-swallowed", "node %d: the inner store failed inside DeleteRange but the middleware returned nil", n.id)
+		case !errors.Is(err, errInjected):
+			c.violate("transparent", "inner-error-replaced", "node %d: DeleteRange returned %v, the inner failure was %v", n.id, err, errInjected)
+		case n.mem.first != f0 || n.mem.last != l0:
+			c.violate("transparent", "deleted-despite-error", "node %d: DeleteRange failed but the store changed", n.id)
+		}
+		c.logf("DeleteRange(%d,%d) on n%d failed (injected)", lo, hi, n.id)
+		return false
+	}
+	if err != nil {
+		c.violate("transparent", "delete-failed", "DeleteRange: %v", err)
+		return false
+	}
+	return true
 }
 
 // mutSpec is a single-field mutation chosen once and applicable to any copy.
@@ -668,7 +867,7 @@ func (c *cluster) changeLeader() {
 	// a new leader starts its term with a no-op
 	L := c.nodes[c.leader]
 	noop := &raft.Log{Index: c.last(L) + 1, Term: c.term, Type: raft.LogNoop}
-	if err := c.storeVia(L, []*raft.Log{noop}); err != nil {
+	if err, injected := c.storeViaF(L, []*raft.Log{noop}); err != nil && !injected {
 		c.violate("transparent", "leader-append-failed", "new leader StoreLogs failed: %v", err)
 	}
 }
@@ -705,13 +904,13 @@ func (c *cluster) headTruncate(n *cnode) {
 	c.waitQuiet(n)
 	k := 1 + uint64(c.tp.Choose(int(n.mem.last-n.mem.first)))
 	c.useNode(n)
-	if e := n.mem.m[n.mem.first+k-1]; e != nil {
-		n.snapIdx, n.snapTerm = e.Index, e.Term
-	}
+	boundary := n.mem.m[n.mem.first+k-1]
 	c.disarmRest(n, n.mem.first, n.mem.first+k-1)
-	if err := n.ls.DeleteRange(n.mem.first, n.mem.first+k-1); err != nil {
-		c.violate("transparent", "delete-failed", "DeleteRange: %v", err)
+	if !c.deleteVia(n, n.mem.first, n.mem.first+k-1) {
 		return
+	}
+	if boundary != nil {
+		n.snapIdx, n.snapTerm = boundary.Index, boundary.Term
 	}
 	c.probes.Add("head_truncations", 1)
 	c.logf("n%d head-truncated to %d", n.id, n.mem.first)
@@ -784,7 +983,7 @@ func runCluster(prop string, seed uint64, cfg Config, plan Plan, tp *tape.Tape) 
 	switch {
 	case res.Panicked != nil:
 		r.HarnessErr = fmt.Sprintf("harness panic: %v\n%s", res.Panicked.PanicVal, trimStack(res.Panicked.PanicStack))
-	case c.viol != nil:
+	case c.viol != nil || c.aborted:
 	case res.Kind == sched.EndDeadlock || res.Kind == sched.EndSteps:
 		if c.mode == "C18" {
 			r.Viol = &Violation{Property: prop, Oracle: "appends-never-block", Class: "blocked:" + deadlockClass(res.Detail), Message: "no task can make progress (StoreLogs must complete even if the report callback blocks): " + res.Detail}
@@ -807,9 +1006,17 @@ func (c *cluster) run(cfg Config) {
 		c.newVerifier(n)
 	}
 	c.leader = c.tp.Choose(nn)
+	// a third of the runs inject errors of the inner store / IsCheckpointFn
+	c.errRun = c.tp.Choose(3) == 0
+	nchoices := 14
+	if c.errRun {
+		nchoices = 16
+	}
 	steps := 10 + c.tp.Choose(40)
-	for s := 0; s < steps && c.viol == nil; s++ {
-		switch c.tp.Choose(14) {
+	for s := 0; s < steps && !c.stopped(); s++ {
+		switch c.tp.Choose(nchoices) {
+		case 14, 15:
+			c.armFault()
 		case 0, 1, 2, 3:
 			c.leaderAppend(false)
 		case 4, 5, 6, 7, 8:
@@ -834,12 +1041,15 @@ func (c *cluster) run(cfg Config) {
 			c.transparencyProbe(c.nodes[c.tp.Choose(nn)])
 		}
 	}
-	if c.viol != nil {
+	if c.stopped() {
 		return
 	}
-	// final: a checkpoint, full replication, all gates open, quiescence
+	// final: no more faults; a checkpoint, full replication, all gates open, quiescence
+	for _, n := range c.nodes {
+		n.wrap.failStoreIn, n.wrap.failDeleteIn, n.wrap.failVReadIn, n.wrap.failVFirstIn, n.wrap.failDriverIn, n.cpFailIn = 0, 0, 0, 0, 0, 0
+	}
 	c.leaderAppend(true)
-	for round := 0; round < 40 && c.viol == nil; round++ {
+	for round := 0; round < 40 && !c.stopped(); round++ {
 		done := true
 		for _, n := range c.nodes {
 			if n.id != c.leader && n.mem.last < c.nodes[c.leader].mem.last {
@@ -857,7 +1067,7 @@ func (c *cluster) run(cfg Config) {
 	for _, n := range c.nodes {
 		c.waitQuiet(n)
 	}
-	if c.viol != nil {
+	if c.stopped() {
 		return
 	}
 	// accounting (C18 / C20 for the verifier metrics)
@@ -893,11 +1103,43 @@ func (c *cluster) run(cfg Config) {
 	c.sig = append(c.sig, fmt.Sprintf("nodes=%d lc=%d", nn, c.probes["leader_changes"]))
 }
 
+// armFault arms one error fault on one node: the k-th matching call from now
+// fails before it reaches the inner store.
+func (c *cluster) armFault() {
+	n := c.nodes[c.tp.Choose(len(c.nodes))]
+	k := 1 + c.tp.Choose(3)
+	var what string
+	switch c.tp.Choose(6) {
+	case 0:
+		n.wrap.failStoreIn, what = k, "StoreLogs"
+	case 1:
+		n.wrap.failDeleteIn, what = 1, "DeleteRange"
+	case 2:
+		n.wrap.failVReadIn, what = k, "verifier-GetLog"
+	case 3:
+		n.wrap.failVFirstIn, what = 1, "verifier-FirstIndex"
+	case 4:
+		n.cpFailIn, what = k, "IsCheckpointFn"
+	case 5:
+		n.wrap.failDriverIn, what = k, "driver-read"
+	}
+	c.logf("fault armed on n%d: %s call #%d from now fails", n.id, what, k)
+}
+
 // transparencyProbe compares the middleware's answers with the inner store's.
 func (c *cluster) transparencyProbe(n *cnode) {
 	c.useNode(n)
+	fd := n.wrap.firedDriver
 	f1, e1 := n.ls.FirstIndex()
 	l1, e2 := n.ls.LastIndex()
+	if n.wrap.firedDriver > fd {
+		// the inner store failed one of the two calls: exactly that error must come back
+		c.fired.Add("inner_error_driver_read", 1)
+		if !(errors.Is(e1, errInjected) && e2 == nil && l1 == n.mem.last) && !(e1 == nil && f1 == n.mem.first && errors.Is(e2, errInjected)) {
+			c.violate("transparent", "inner-read-error-not-returned", "node %d: the inner store failed FirstIndex or LastIndex; the middleware returned (%d,%v) (%d,%v)", n.id, f1, e1, l1, e2)
+		}
+		return
+	}
 	if e1 != nil || e2 != nil || f1 != n.mem.first || l1 != n.mem.last {
 		c.violate("transparent", "index-differs", "node %d: middleware First/Last %d/%d (%v,%v), inner store %d/%d", n.id, f1, l1, e1, e2, n.mem.first, n.mem.last)
 		return
@@ -905,7 +1147,15 @@ func (c *cluster) transparencyProbe(n *cnode) {
 	if n.mem.last != 0 {
 		i := n.mem.first + uint64(c.tp.Choose(int(n.mem.last-n.mem.first+1)))
 		var l raft.Log
+		fd = n.wrap.firedDriver
 		err := n.ls.GetLog(i, &l)
+		if n.wrap.firedDriver > fd {
+			c.fired.Add("inner_error_driver_read", 1)
+			if !errors.Is(err, errInjected) {
+				c.violate("transparent", "inner-read-error-not-returned", "node %d: the inner store failed GetLog(%d); the middleware returned %v", n.id, i, err)
+			}
+			return
+		}
 		want := n.mem.m[i]
 		swapped := n.wrap.swapA != 0 && (i == n.wrap.swapA || i == n.wrap.swapA+1)
 		if n.wrap.restIdx != i && !swapped && (err != nil || !sameLog(want, &l)) {
@@ -914,7 +1164,13 @@ func (c *cluster) transparencyProbe(n *cnode) {
 		}
 	}
 	var l raft.Log
-	if err := n.ls.GetLog(n.mem.last+5, &l); !errors.Is(err, raft.ErrLogNotFound) {
+	fd = n.wrap.firedDriver
+	if err := n.ls.GetLog(n.mem.last+5, &l); n.wrap.firedDriver > fd {
+		if !errors.Is(err, errInjected) {
+			c.violate("transparent", "inner-read-error-not-returned", "node %d: the inner store failed GetLog; the middleware returned %v", n.id, err)
+		}
+		return
+	} else if !errors.Is(err, raft.ErrLogNotFound) {
 		c.violate("transparent", "getlog-notfound-differs", "node %d: GetLog beyond the end returned %v", n.id, err)
 		return
 	}
@@ -924,6 +1180,9 @@ func (c *cluster) transparencyProbe(n *cnode) {
 		bad.Extensions = []byte("foreign-extension-data")
 		lastBefore := n.mem.last
 		err := n.ls.StoreLogs([]*raft.Log{bad})
+		if errors.Is(err, errInjected) {
+			return // IsCheckpointFn fault fired first: says nothing about the refusal
+		}
 		if err == nil || n.mem.last != lastBefore {
 			c.violate("transparent", "foreign-extensions-accepted", "a checkpoint with foreign Extensions was accepted (err=%v, last %d -> %d)", err, lastBefore, n.mem.last)
 			return
